@@ -177,6 +177,37 @@ def cutCheck (o : Option (Sys (Doc × Option Nat))) : Bool :=
   | none => false
 example : cutCheck (run toyCodec false Sys.init cutSchedule) = true := by decide
 
+/-- **audit A4** — the clause "after a restart the set of topics and channels is one the daemon actually passed through",
+read GLOBALLY (the whole document equals the persisted view of ONE live state): every snapshot ever taken — hence, by
+`dat_absent_or_complete`, every content `nsqd.dat` ever has, hence (by `start_after_kill_ok`) every state a restart after
+a kill can load — is `snap M` for some state `M` of the history. -/
+def C06_cut_full (fix : Bool) : Prop :=
+  ∀ (β : Type) (cd : Codec β) (s : Sys β), Reach cd fix s → ∀ D ∈ s.taken, ∃ M ∈ s.hist, D = snap M
+
+/-- … is FALSE on both trees (witness `cutSchedule`: `GetMetadata` locks one topic at a time, and `Topic.GetChannel` does not
+take the NSQD lock that `PersistMetadata` holds).  Replayed on the real code: `TestVerifMetaCutObservation`
+(`restart_from_that_file=loaded-never-passed-state`); open known finding `restart-state-never-passed-through`. -/
+theorem cut_full_false (fix : Bool) : ¬ C06_cut_full fix := by
+  intro hfull
+  have hc : cutCheck (run toyCodec fix Sys.init cutSchedule) = true := by cases fix <;> decide
+  cases hr : run toyCodec fix Sys.init cutSchedule with
+  | none => simp [hr, cutCheck] at hc
+  | some s =>
+    simp only [hr, cutCheck, Bool.and_eq_true, beq_iff_eq, Bool.not_eq_true', List.contains_eq_mem,
+      decide_eq_false_iff_not, List.mem_map, not_exists, not_and] at hc
+    obtain ⟨ht, hn⟩ := hc
+    obtain ⟨M, hM, hD⟩ := hfull _ toyCodec s ⟨_, hr⟩ _ (by rw [ht]; exact List.mem_singleton.mpr rfl)
+    exact hn M hM hD.symm
+
+/-- `C06_cut_partial` — what does hold (= `snapshot_cut`): the cut is per topic.  The topic LIST of every document is that of
+one live state, and every topic ENTRY (pause flag + channel set with flags) is that topic's entry in one live state; the
+entries of different topics may come from different states between the persist's first and last read.  Forced weakening:
+`cut_full_false`.  The next completed persist heals it (`creation_persisted_when_idle`, `deletion_excluded_when_idle`: at
+quiescence the file IS the live state). -/
+theorem C06_cut_partial (cd : Codec β) (fix : Bool) (s : Sys β) (h : Reach cd fix s) :
+    ∀ D ∈ s.taken, (∃ M ∈ s.hist, names D = names (snap M)) ∧ ∀ e ∈ D, ∃ M ∈ s.hist, e ∈ snap M :=
+  snapshot_cut cd fix s h
+
 /-- When a synchronous persist (pause/unpause handler, startup, post-delete persist) returns — the instant
 the HTTP answer is produced — `nsqd.dat` is the complete document of the caller's *own* snapshot, and every
 entry of it was read from a live state at or after the caller's own state change (`h.stamp`). -/
@@ -213,7 +244,30 @@ theorem pause_ack_flag (cd : Codec β) (fix : Bool) (s : Sys β) (h : Reach cd f
   obtain ⟨T, ⟨hT, _⟩, rfl⟩ := hm
   exact hquiet i M T hi hM hT hn
 
-/-- A second nsqd on a data path that is in use refuses to start and disturbs nothing. -/
+/-- audit A14 — the channel corollary of `pause_ack_flag` (`/channel/pause`, `/channel/unpause`): unless another
+pause/unpause of the same channel (or a deletion / re-creation of it) raced with the handler — every live state from the
+handler's store on has channel `t:cn`, whenever it lists it, with the requested flag — every entry for `t:cn` in the file
+the answer is based on carries that flag. -/
+theorem pause_ack_chan_flag (cd : Codec β) (fix : Bool) (s : Sys β) (h : Reach cd fix s)
+    (p : Persist) (hd : Handler) (hp : s.persist = some p) (ho : p.owner = some hd)
+    (t cn : String) (flag : Bool)
+    (hquiet : ∀ i M T C, hd.stamp ≤ i → s.hist[i]? = some M → T ∈ M → T.name = t → C ∈ T.chans → C.name = cn →
+      C.paused = flag) :
+    ∀ e ∈ p.done, e.name = t → ∀ c ∈ e.chans, c.name = cn → c.paused = flag := by
+  intro e he hn c hc hcn
+  have hC := reach_invC h
+  obtain ⟨i, M, hi, hM, hm⟩ := (hC.pdone p hp e he).weaken ((hC.psince p hp).2 hd ho)
+  simp only [snap, List.mem_map, List.mem_filter] at hm
+  obtain ⟨T, ⟨hT, _⟩, rfl⟩ := hm
+  simp only [snapTopic, List.mem_map, List.mem_filter] at hc
+  obtain ⟨C, ⟨hCm, _⟩, rfl⟩ := hc
+  exact hquiet i M T C hi hM hT hn hCm hcn
+
+/-- A second nsqd on a data path that is in use refuses to start and disturbs nothing.
+(Audit A14: in the MODEL this holds by definition of `step … .start` — the model's `alive` flag IS the flock.  The content
+of the clause is carried by (i) the tie `flock_before_listen` / `LOCK_EX|LOCK_NB` / `exit_releases_dirlock_last`, (ii) the
+assumption that flock(2) excludes a second holder, and (iii) the legs that start a real second daemon process and a second
+`New()` on a held path.  The theorem only records that the model refuses and changes nothing.) -/
 theorem second_instance_refused (cd : Codec β) (fix : Bool) (s : Sys β) (h : s.alive = true) :
     step cd fix s .start = some { s with lastStart := .locked } := by
   simp [step, h]
@@ -373,6 +427,31 @@ write, restart from the previous complete file, a pause handler about to answer)
 example : lifeCheck (run toyCodec true Sys.init lifeSchedule) = true := by decide
 
 example : toyCodec.RoundTrip := fun d => by simp [toyCodec]
+
+/-- non-vacuity of `pause_ack_chan_flag` (audit A14): a `/channel/pause` handler about to answer; the document it wrote
+lists `t:c` paused -/
+def chanPauseSchedule : List Step :=
+  [.start, .persist (.beginHandler 0), .persist .read, .persist (.openTmp 1), .persist .writeRest, .persist .sync,
+   .persist .rename, .persist .finish,
+   .mem (.createTopic "t" false), .mem (.createChan "t" "c" false), .persist .beginNotify, .persist .read,
+   .persist .read, .persist (.openTmp 2), .persist .writeRest, .persist .sync, .persist .rename, .persist .finish,
+   .persist .beginNotify, .persist .read, .persist .read, .persist (.openTmp 3), .persist .writeRest, .persist .sync,
+   .persist .rename, .persist .finish,
+   .mem (.pauseChan "t" "c" true), .persist (.beginHandler 0), .persist .read, .persist .read,
+   .persist (.openTmp 4), .persist .writeRest, .persist .sync, .persist .rename]
+
+example : (match run toyCodec true Sys.init chanPauseSchedule with
+    | some s => (match s.persist with
+                 | some p => p.phase == .renamedP && p.done == [⟨"t", false, [⟨"c", true⟩]⟩] && p.owner.isSome
+                 | none => false) && (s.fs.dat == some ([⟨"t", false, [⟨"c", true⟩]⟩], none))
+    | none => false) = true := by decide
+
+/-- non-vacuity of `cut_full_false` / `C06_cut_partial`: the witness document is a per-topic cut (both entries occur in
+live states of the history) and no global one -/
+example : (match run toyCodec true Sys.init cutSchedule with
+    | some s => s.taken.all (fun D => D.all (fun e => s.hist.any (fun M => (snap M).contains e))) &&
+                !(s.hist.map snap).contains [⟨"a", false, []⟩, ⟨"b", false, [⟨"c2", false⟩]⟩]
+    | none => false) = true := by decide
 
 def quietCheck (o : Option (Sys (Doc × Option Nat))) : Bool :=
   match o with
